@@ -160,7 +160,7 @@ def workdir(tag: str) -> Path:
 
 
 def coqc(path: Path, timeout=600) -> tuple[int, str]:
-    r = subprocess.run(["timeout", str(timeout), "coqc", *COQ_FLAGS, str(path)], cwd=path.parent,
+    r = subprocess.run(["timeout", str(timeout), "coqc", "-noglob", *COQ_FLAGS, str(path)], cwd=path.parent,
                        capture_output=True, text=True)
     return r.returncode, r.stdout + r.stderr
 
